@@ -558,3 +558,148 @@ async fn d12b_unbounded_upper() {
 	println!("D12b both-unbounded result = {:?}", r2.as_ref().map(|v| v.iter().map(|k| String::from_utf8_lossy(k).to_string()).collect::<Vec<_>>()).map_err(|_| "panic"));
 	assert!(r.is_ok());
 }
+
+// D16: a commit that fails in apply (value larger than the memtable arena) leaves its record in the WAL
+#[tokio::test(flavor = "multi_thread")]
+async fn d16_failed_commit_poisons_store_and_reopen() {
+	let d = td();
+	let opts = mk_opts(d.path().to_path_buf(), |o| {
+		o.max_memtable_size = 64 * 1024;
+	});
+	let tree = Tree::new(Arc::clone(&opts)).unwrap();
+	put(&tree, b"before", b"1").await;
+	// oversized transaction: must fail and leave no trace
+	let big = vec![7u8; 1024 * 1024];
+	let mut tx = tree.begin().unwrap();
+	tx.set(b"small-in-failed-txn", b"x").unwrap();
+	tx.set(b"big", &big).unwrap();
+	let r = tx.commit().await;
+	assert!(r.is_err(), "oversized commit unexpectedly succeeded");
+	// (a) none of the failed transaction's writes is visible
+	{
+		let rtx = tree.begin().unwrap();
+		assert_eq!(rtx.get(b"small-in-failed-txn").unwrap(), None, "D16a: write of a failed commit is visible");
+	}
+	// (b) the store keeps accepting transactions
+	let mut tx2 = tree.begin().unwrap();
+	tx2.set(b"after", b"2").unwrap();
+	let r2 = tx2.commit().await;
+	assert!(r2.is_ok(), "D16b: store stops accepting commits after a failed one: {:?}", r2);
+	drop(tree);
+	// (c) crash + reopen: acknowledged commits are recovered, the failed one is not
+	let tree2 = Tree::new(Arc::clone(&opts));
+	assert!(tree2.is_ok(), "D16c: reopen fails after a failed commit: {:?}", tree2.err());
+	let tree2 = tree2.unwrap();
+	let rtx = tree2.begin().unwrap();
+	assert_eq!(rtx.get(b"after").unwrap().as_deref(), Some(&b"2"[..]));
+	assert_eq!(rtx.get(b"big").unwrap(), None, "D16c: failed commit resurrected by recovery");
+}
+
+// D20: with versioning on and unlimited retention, an open reader makes compaction drop history
+#[tokio::test(flavor = "multi_thread")]
+async fn d20_history_lost_when_reader_open_during_compaction() {
+	let d = td();
+	let opts = mk_opts(d.path().to_path_buf(), |o| {
+		o.enable_versioning = true;
+		o.enable_vlog = true;
+		o.vlog_value_threshold = 0;
+		o.versioned_history_retention_ns = 0;
+		o.level_count = 3;
+		o.level0_max_files = 1;
+	});
+	let tree = Tree::new(Arc::clone(&opts)).unwrap();
+	put(&tree, b"zz-other", b"0").await;
+	// a long-running reader that sees neither version of k
+	let reader = tree.begin_with_mode(crate::Mode::ReadOnly).unwrap();
+	// write-only transactions: they register no snapshot of their own (see D2)
+	for v in [&b"v1"[..], &b"v2"[..]] {
+		let mut tx = tree.begin_with_mode(crate::Mode::WriteOnly).unwrap();
+		tx.set(b"k", v).unwrap();
+		tx.commit().await.unwrap();
+	}
+	let count_versions = |tree: &Tree| {
+		let tx = tree.begin_with_mode(crate::Mode::ReadOnly).unwrap();
+		let mut it = tx.history(b"k", b"l").unwrap();
+		let mut n = 0;
+		let mut ok = it.seek_first().unwrap();
+		while ok {
+			n += 1;
+			ok = it.next().unwrap();
+		}
+		n
+	};
+	assert_eq!(count_versions(&tree), 2);
+	tree.flush().unwrap();
+	assert_eq!(count_versions(&tree), 2, "after flush");
+	tree.compact(Arc::new(Strategy::from_options(Arc::clone(&opts)))).unwrap();
+	{
+		let m = tree.core.inner.level_manifest.read().unwrap();
+		let counts: Vec<usize> = m.levels.get_levels().iter().map(|l| l.tables.len()).collect();
+		println!("D20 level table counts after compaction: {:?}", counts);
+		assert_eq!(counts[0], 0, "compaction did not run");
+	}
+	let n = count_versions(&tree);
+	drop(reader);
+	assert_eq!(n, 2, "D20: a version inside unlimited retention was dropped by compaction while a reader was open");
+}
+
+// D17b: a damaged size field in the (unchecksummed) footer must give an error, not abort/panic
+#[tokio::test(flavor = "multi_thread")]
+async fn d17b_footer_handle_size_is_bounded() {
+	use std::io::{Read, Seek, SeekFrom, Write};
+	let d = td();
+	let opts = mk_opts(d.path().to_path_buf(), |_| {});
+	{
+		let tree = Tree::new(Arc::clone(&opts)).unwrap();
+		put(&tree, b"k", b"v").await;
+		tree.flush().unwrap();
+		tree.close().await.unwrap();
+	}
+	let sst = std::fs::read_dir(opts.sstable_dir()).unwrap().next().unwrap().unwrap().path();
+	let mut f = std::fs::OpenOptions::new().read(true).write(true).open(&sst).unwrap();
+	let len = f.metadata().unwrap().len();
+	let flen = 50u64; // TABLE_FULL_FOOTER_LENGTH = 42 + 8
+	f.seek(SeekFrom::Start(len - flen)).unwrap();
+	let mut buf = vec![0u8; flen as usize];
+	f.read_exact(&mut buf).unwrap();
+	// re-encode the footer with a meta-index handle whose size field is ~2^56, keeping the index handle
+	fn rd(b: &[u8], p: &mut usize) -> u64 {
+		let (mut v, mut sh) = (0u64, 0);
+		loop {
+			let x = b[*p];
+			*p += 1;
+			v |= ((x & 0x7f) as u64) << sh;
+			if x & 0x80 == 0 {
+				return v;
+			}
+			sh += 7;
+		}
+	}
+	fn wr(out: &mut Vec<u8>, mut v: u64) {
+		while v >= 0x80 {
+			out.push((v as u8 & 0x7f) | 0x80);
+			v >>= 7;
+		}
+		out.push(v as u8);
+	}
+	let mut p = 2usize;
+	let (mo, _ms, io, is) = (rd(&buf, &mut p), rd(&buf, &mut p), rd(&buf, &mut p), rd(&buf, &mut p));
+	let mut enc = vec![buf[0], buf[1]];
+	wr(&mut enc, mo);
+	wr(&mut enc, 1u64 << 56);
+	wr(&mut enc, io);
+	wr(&mut enc, is);
+	assert!(enc.len() <= 42);
+	for b in buf.iter_mut().take(42) {
+		*b = 0;
+	}
+	buf[..enc.len()].copy_from_slice(&enc);
+	f.seek(SeekFrom::Start(len - flen)).unwrap();
+	f.write_all(&buf).unwrap();
+	f.sync_all().unwrap();
+	drop(f);
+	let o2 = Arc::clone(&opts);
+	let r = std::panic::catch_unwind(std::panic::AssertUnwindSafe(move || Tree::new(o2).map(|_| ())));
+	assert!(r.is_ok(), "D17b: opening a table with a damaged footer size panicked");
+	assert!(r.unwrap().is_err(), "D17b: damaged footer accepted");
+}
